@@ -41,6 +41,10 @@ func EndBlocker(ctx sdk.Context, keeper *keeper.Keeper) error {
 				if err = keeper.DeleteProposal(ctx, proposal.Id); err != nil {
 					return false, err
 				}
+				// the rewritten record carries no DepositEndTime: drop the queue entry by its own key
+				if err = keeper.InactiveProposalsQueue.Remove(ctx, key); err != nil {
+					return false, err
+				}
 
 				return false, nil
 			}
@@ -112,7 +116,7 @@ func EndBlocker(ctx sdk.Context, keeper *keeper.Keeper) error {
 					return false, err
 				}
 
-				if err = keeper.ActiveProposalsQueue.Remove(ctx, collections.Join(*proposal.VotingEndTime, proposal.Id)); err != nil {
+				if err = keeper.ActiveProposalsQueue.Remove(ctx, key); err != nil {
 					return false, err
 				}
 
